@@ -1,16 +1,18 @@
 #!/bin/bash
 # tools/mk_agent.sh <ID> [tag]  -- create /tmp/wt/<tag> worktree + /tmp/agent_prompt_<tag>.txt for a seeding sub-agent
-id="$1"; tag="${2:-$id}"
+id="$1"; tag="${2:-$id}"; avoid="${3:-}"
 mkdir -p /tmp/wt /tmp/shims; cp -r /verif/shims/* /tmp/shims/
 [ -d /tmp/wt/$tag ] || git -C /repo worktree add -q --detach /tmp/wt/$tag HEAD || exit 2
-python3 - "$id" "$tag" <<'PY'
+python3 - "$id" "$tag" "$avoid" <<'PY'
 import json,sys
-id,tag=sys.argv[1:3]
+id,tag,avoid=sys.argv[1:4]
 for l in open('/verif/properties.jsonl'):
     p=json.loads(l)
     if p['id']==id: break
 text="[%s] %s\n\nStatement: %s\n\nQuantified over: %s\n\nRelevant code: %s\nMechanisms: %s" % (p['id'],p['title'],p['statement'],p['quantifier']['text'],", ".join(p['anchors']['files']),"; ".join("%s (%s)"%(m['name'],m['where']) for m in p['anchors'].get('mechanism',[])))
 t=open('/verif/tools/agent_prompt.tmpl').read().replace('@WT@','/tmp/wt/'+tag).replace('@PROPERTY@',text).replace('@ID@',id)
+if avoid:
+    t=t.replace("Deliverables, all inside","Additional constraint: a change inside %s has already been studied -- make yours in a different file (or, if the property leaves no other sensible place, in a clearly different function and mechanism).\n\nDeliverables, all inside" % avoid)
 open('/tmp/agent_prompt_%s.txt'%tag,'w').write(t)
 print('/tmp/agent_prompt_%s.txt'%tag)
 PY
